@@ -71,6 +71,22 @@ def lean_files_of(prop):
     return sorted(seen)
 
 
+TIE_FILE = os.path.join(LEAN, "JS", "Proofs", "TieFingerprints.json")
+
+
+def tie_status():
+    """which translated keyword functions differ from the source terms the tie theorems were proved for
+    (JS/Proofs/TieFingerprints.json, committed next to the proofs): {fn: model definition} of the changed ones"""
+    import translate
+    try:
+        table = json.load(open(TIE_FILE))
+    except OSError:
+        return {}, {}
+    now = {n: hashlib.sha1(t.encode()).hexdigest() for n, t in translate.translate_all(os.environ.get("JS_REPO", "/repo"))}
+    changed = {fn: row["model"] for fn, row in table.items() if now.get(fn) != row["sha1"]}
+    return table, changed
+
+
 def proof_step(prop, log):
     """returns dict(theorems=[…], broken=[…], built=bool, axioms=set, model_defs=[…])"""
     out = {"theorems": [], "broken": [], "built": False, "axioms": set(), "uses": set(), "notes": []}
@@ -124,6 +140,59 @@ def proof_step(prop, log):
             out["broken"].append({"module": row["theorem"], "errors": ["non-standard axioms: %s" % bad]})
     if not out["theorems"]:
         out["notes"].append("no theorems found in %s" % mod)
+    # source tie: the keyword functions this property's theorems are about must BE the regenerated
+    # source (JS/Props/Tie.lean). Only functions whose translated term changed can break it.
+    table, changed = tie_status()
+    relevant = sorted(fn for fn, row in table.items() if row["model"] in out["uses"])
+    out["tie"] = {"functions_with_tie_theorem": len(table), "relevant_to_this_property": relevant, "changed": sorted(changed)}
+    if relevant and changed and not any(fn in changed for fn in relevant):
+        # only functions this property's theorems do not depend on changed: their tie theorems (which
+        # share a module with the others) may no longer build, the relevant ones are about unchanged terms
+        out["tie"]["build"] = "not rebuilt: only functions irrelevant to this property changed (%s)" % ", ".join(sorted(changed))
+    elif relevant:
+        with BuildLock():
+            rc, txt = sh(["lake", "build", "JS.Props.Tie"], cwd=LEAN)
+        if rc != 0:
+            hit = [fn for fn in relevant if fn in changed]
+            out["tie"]["build"] = "failed"
+            if hit:
+                out["broken"].append({"module": "JS.Props.Tie", "functions": hit,
+                                      "errors": (["tie_%s: the regenerated source of `%s` is no longer proved equal to the model's %s" % (fn, fn, changed[fn]) for fn in hit]
+                                                 + re.findall(r"error: (.*)", txt)[:6]),
+                                      "log_tail": txt[-1500:]})
+            elif not changed:
+                raise Infra("JS.Props.Tie does not build although no translated function changed:\n" + txt[-2000:])
+        else:
+            out["tie"]["build"] = "ok"
+            audit = os.path.join(LEAN, ".lake", "audit_Tie.lean")
+            with open(audit, "w") as f:
+                f.write("import JS.AuditCmd\nimport JS.Props.Tie\n#audit JS.Props.Tie\n")
+            with BuildLock():
+                rc, txt = sh(["lake", "env", "lean", audit], cwd=LEAN)
+            if rc != 0:
+                raise Infra("audit of JS.Props.Tie failed:\n" + txt[-2000:])
+            want = {"JS.Props.Tie.tie_%s" % fn for fn in relevant}
+            for line in txt.splitlines():
+                i = line.find("AUDIT {")
+                if i < 0:
+                    continue
+                row = json.loads(line[i + 6:])
+                if row["theorem"] not in want:
+                    continue
+                out["theorems"].append(row["theorem"])
+                out["axioms"].update(row["axioms"])
+                bad = [a for a in row["axioms"] if a not in ALLOWED_AXIOMS]
+                if bad:
+                    out["broken"].append({"module": row["theorem"], "errors": ["non-standard axioms: %s" % bad]})
+            missing = want - set(out["theorems"])
+            if missing:
+                out["broken"].append({"module": "JS.Props.Tie", "errors": ["tie theorems missing: %s" % sorted(missing)]})
+            for m in ("JS.Props.Tie", "JS.Proofs.TieBase", "JS.Proofs.TieA", "JS.Proofs.TieB", "JS.Proofs.TieC",
+                      "JS.Py.IR", "JS.Py.Interp", "JS.Py.EvalSrc"):
+                srcf = os.path.join(LEAN, *m.split(".")) + ".lean"
+                hit = FORBIDDEN.search(strip_comments(open(srcf).read()))
+                if hit:
+                    out["broken"].append({"module": m, "errors": ["forbidden construct: %s" % hit.group(0).strip()]})
     return out
 
 
@@ -217,6 +286,7 @@ def main():
                 "theorems": proof["theorems"],
                 "model_definitions_used": sorted(proof["uses"])[:400],
                 "broken": proof["broken"],
+                "source_tie": proof.get("tie"),
                 "leanchecker": proof.get("leanchecker"),
                 "evaluations": res.evaluations,
                 "distinct_nontrivial": res.distinct_nontrivial,
